@@ -20,7 +20,8 @@ EXPLANATION = (
     "encode/decode: '=' is written iff the value is Some; the decoder splits at the FIRST '=' (Iterator::position) and "
     "yields None iff there is none.  (e) first-occurrence-wins with case-insensitive keys in decode_txt_unique and the slice "
     "input, case-insensitive lookup in TxtProperties::get.  Decides these structural clauses, not the byte-for-byte round trip."
-    " (i) Every turn of decode_txt's loop moves the cursor past the whole string it has read. (j) The duplicate filter is not one of Vec's neighbours-only dedup* methods.")
+    " (i) Every turn of decode_txt's loop moves the cursor past the whole string it has read. (j) The duplicate filter is not one of Vec's neighbours-only dedup* methods."
+    " (k) add_or_update puts a new record at the front of its vector (readers take the first live record).")
 UNDECIDED = ["byte-for-byte equality of keys, values and order end to end (value round trip over all inputs)",
              "behaviour of the end-to-end path through the cache and ResolvedService"]
 ASSUMPTIONS = ["allocation failure is out of scope", "std functions behave as documented (library model table in mdnsverif/libmodel.py)"]
@@ -449,6 +450,7 @@ def run(ctx, P):
     from . import r4
     r4.every_string_skipped_whole(ctx, P, "C16i")
     r4.first_occurrence_wins_everywhere(ctx, P, "C16j")
+    r4.newest_record_first(ctx, P, "C16k")
     R = P      # (P.raw is the program as extracted; the numeric engine also runs on the normalised one)
     R.repo = P.repo
     clause_a(ctx, R)
